@@ -432,6 +432,35 @@ def r4_1(ctx, R, otypes):
                                         inc_ok = True
                                     if i in holder and holder[i] in caps:
                                         inc_ok = True
+                        if not inc_ok:
+                            # the counter lives in a field of a local struct (`IndexCounter { next }`) that the numbering closure borrows
+                            # mutably; the literal reads that field afterwards: decided on the MIR operands (the expression view would
+                            # show the field's initial constant)
+                            for bb2 in range(b.n):
+                                for s in b.stmts(bb2):
+                                    if s["k"] == "assign" and s["rv"]["k"] == "aggregate" and s["rv"].get("adt") == path and i in (s["rv"].get("fields") or []):
+                                        o_ = s["rv"]["ops"][s["rv"]["fields"].index(i)]
+                                        root = None
+                                        if o_["k"] in ("move", "copy"):
+                                            pl_ = o_["place"]
+                                            for _hop in range(6):
+                                                if pl_["p"]:
+                                                    root = pl_["l"] if all(e_["k"] == "field" for e_ in pl_["p"]) else None
+                                                    break
+                                                d_ = [n_ for (db_, ix_, k_, n_) in fl.defs.get(pl_["l"], []) if k_ == "assign"]
+                                                if len(d_) == 1 and d_[0]["rv"]["k"] == "use" and d_[0]["rv"]["op"]["k"] in ("move", "copy"):
+                                                    pl_ = d_[0]["rv"]["op"]["place"]
+                                                else:
+                                                    break
+                                        if root is None:
+                                            continue
+                                        refs_ = {s2["place"]["l"] for bb3 in range(b.n) for s2 in b.stmts(bb3)
+                                                 if s2["k"] == "assign" and s2["rv"]["k"] == "ref" and s2["rv"].get("mut") and s2["rv"]["place"]["l"] == root and not s2["rv"]["place"]["p"]}
+                                        for bb3 in range(b.n):
+                                            for s3 in b.stmts(bb3):
+                                                if s3["k"] == "assign" and s3["rv"]["k"] == "aggregate" and s3["rv"].get("agg") == "closure" and \
+                                                        any(o3["k"] in ("move", "copy") and not o3["place"]["p"] and o3["place"]["l"] in refs_ for o3 in s3["rv"]["ops"]):
+                                                    inc_ok = True
                     ctx.ob("R4.1", b, "from_iter:incoming=count,outgoing=0", bool(zero) and inc_ok, b.loc(rb),
                            "outgoing=%s incoming=%s" % (expr_str(ops[o]) if o else None, expr_str(ops[i]) if i else None))
 
@@ -1122,6 +1151,13 @@ def r4_7(ctx, R, otypes):
     for path, w, h in otypes:
         allc |= set(w)
     builders = {(b.path, bb) for b, bb, e in wrapper_builders(ctx)}
+    outgoing = set()
+    for path_, w_, h_ in otypes:
+        for b_ in ctx.facts.fn_bodies():
+            if re.search(r"^<%s<.*> as futures_core::Stream>::poll_next$" % re.escape(path_), b_.path):
+                o_ = outgoing_counter(ctx, b_, w_)
+                if o_:
+                    outgoing.add(o_)
     n = 0
     for b in ctx.facts.fn_bodies():
         fl = ctx.flow(b)
@@ -1161,6 +1197,28 @@ def r4_7(ctx, R, otypes):
                            xor and is_ordered_poll, b.loc(sbb), "store to %s" % expr_str(pe))
         # (c) counter updates
         adds, subs, other = counter_updates(ctx, b, fl, allc)
+        # a function that empties the whole window -- it clears the in-progress collection AND the parked heap (`clear()`) -- may
+        # re-synchronise the counters: both set to the same constant, or the outgoing one advanced by the collection's own len()
+        # (running + parked, C15 R15.3). Advancing by the in-flight count alone, or leaving the heap, is not that.
+        heap_cleared = bool(direct_sites(b, r"alloc::collections::(binary_heap::)?BinaryHeap::<.*>::(clear|drain)$"))
+        queue_cleared = any(fn and not b.is_cleanup(bb) and re.search(r"Futures(Unordered|UnorderedBounded)::<.*>::clear$", fn_name(fn) or "")
+                            for bb, t, fn in b.calls())
+        emptied = heap_cleared and queue_cleared and not is_ordered_poll
+        own_len = None
+        m_own = re.match(r"^<?([\w:]+?)(::<|<)", b.path)
+        if m_own:
+            own_len = re.compile(r"^%s::<\w+>::len$" % re.escape(m_own.group(1)))
+        if emptied and other:
+            consts = set()
+            for sbb, ctr in other:
+                for (bb_, i_, st_) in fl.stores:
+                    if bb_ == sbb and i_ != "term":
+                        v_ = strip_refs(fl.rvalue_expr(st_["rv"], bb_))
+                        if v_[0] == "agg" and v_[2]:
+                            v_ = strip_refs(v_[2][0])
+                        consts.add(v_[2] if v_[0] == "const" else None)
+            if len(consts) == 1 and None not in consts and len({c for _, c in other}) >= 2:
+                other = []          # both counters set to the same constant
         for sbb, ctr in other:
             ctx.ob("R4.7", b, "(c) counter-stepped-by-one:%s" % ctr, False, b.loc(sbb), "position counter %s written with something else than +-1 / re-base" % ctr)
         for x in direct_sites(b, RE_ADD_ASSIGN) + direct_sites(b, RE_SUB_ASSIGN):
@@ -1169,6 +1227,14 @@ def r4_7(ctx, R, otypes):
                 continue
             amt = fl.operand_expr(x[1]["args"][1])
             one = (amt[0] == "const" and amt[2] == "1") or (amt[0] == "agg" and amt[2] and amt[2][0][0] == "const" and amt[2][0][2] == "1")
+            if not one and emptied and own_len is not None:
+                a_ = strip_refs(amt)
+                if a_[0] == "agg" and a_[2]:
+                    a_ = strip_refs(a_[2][0])
+                if a_[0] == "call" and own_len.search(a_[1] or "") and "AddAssign" in (fn_name(x[2]) or ""):
+                    # the len() must have been read before anything was cleared
+                    clears = [bb for bb, t, fn in b.calls() if fn and re.search(r"::(clear|drain)$", fn_name(fn) or "")]
+                    one = all(not b.dominates(cb_, a_[3]) for cb_ in clears) and ctr in outgoing
             ctx.ob("R4.7", b, "(c) counter-stepped-by-one:%s@%s" % (ctr, _site_label(b, x[0])), one, b.loc(x[0]), "step %s" % expr_str(amt))
     ctx.floor("R4.7", "wrapper-constructions", n, 7)
 
